@@ -2619,8 +2619,53 @@ impl Translator {
                                         self.emit(st, Instr::SetIndex(Reg::Top, Reg::Top));
                                     }
                                     _ => {
+                                        // g[i] op= v is g.index_set(i, g.index_get(i) op v), with `g`
+                                        // and `i` evaluated once, left to right, into their temporaries
+                                        let index_iface_decl =
+                                            self.statics.get_iface_decl("prelude.Index");
+                                        // the checker typed the target as a read of g[i]
+                                        let fn_index_get_ty = self.statics.index_get_types
+                                            [&expr1.id]
+                                            .solution()
+                                            .unwrap();
+                                        let SolvedType::Function(get_args, elem_ty) =
+                                            &fn_index_get_ty
+                                        else {
+                                            unreachable!()
+                                        };
+                                        let mut set_args = get_args.clone();
+                                        set_args.push((**elem_ty).clone());
+                                        let fn_index_set_ty =
+                                            SolvedType::Function(set_args, SolvedType::Void.into());
+                                        let array_tmp = *offset_table.get(&array.id).unwrap();
+                                        let index_tmp = *offset_table.get(&index.id).unwrap();
+                                        self.translate_expr(array, offset_table, mono, st);
+                                        self.emit(st, Instr::StoreOffset(array_tmp));
+                                        self.translate_expr(index, offset_table, mono, st);
+                                        self.emit(st, Instr::StoreOffset(index_tmp));
+                                        // args of index_set()
+                                        self.emit(st, Instr::LoadOffset(array_tmp));
+                                        self.emit(st, Instr::LoadOffset(index_tmp));
+                                        // interface method Index::index_get()
+                                        self.emit(st, Instr::LoadOffset(array_tmp));
+                                        self.emit(st, Instr::LoadOffset(index_tmp));
+                                        self.translate_iface_method_call_helper(
+                                            st,
+                                            mono,
+                                            &index_iface_decl,
+                                            0,
+                                            &fn_index_get_ty,
+                                        );
+                                        self.translate_expr(rvalue, offset_table, mono, st);
+                                        perform_op(st);
                                         // interface method Index::index_set()
-                                        unimplemented!()
+                                        self.translate_iface_method_call_helper(
+                                            st,
+                                            mono,
+                                            &index_iface_decl,
+                                            1,
+                                            &fn_index_set_ty,
+                                        );
                                     }
                                 }
                             }
